@@ -782,13 +782,15 @@ fn keyid_case<B: Backend>(cx: &mut Ctx, rng: &mut Prng, pairs: &[keys::Pair]) {
         "public" => pairs.iter().map(|p| (p.public.clone(), false)).filter(|k| k.0.len() == klen).collect(),
         _ => pairs.iter().map(|p| (p.secret.clone(), false)).filter(|k| k.0.len() == klen).collect(),
     };
+    let mut pke_cands: Vec<Vec<u8>> = Vec::new();
     if B::VER == 1 && kind != "local" {
-        // RSA keys exactly as an outside tool wrote them (DER from the fixture files, not bytes the library re-encoded itself): a
-        // canonical DER key is kept as given (C08), so its text and id are those of the bytes given
-        for i in 0..2 {
-            let f = format!("{}/fixtures/rsa2048-{}.{}.pem", env!("CARGO_MANIFEST_DIR"), i, if kind == "public" { "pub" } else { "sec" });
+        // RSA keys exactly as an outside tool wrote them (DER from the fixture files, not bytes the library re-encoded itself; also a
+        // public exponent of 3 and a 4096-bit key-sealing pair): a canonical DER key is kept as given (C08), so its text and id are
+        // those of the bytes given
+        for name in ["rsa2048-0", "rsa2048-1", "rsa2048e3-0", "rsa4096-0"] {
+            let f = format!("{}/fixtures/{name}.{}.pem", env!("CARGO_MANIFEST_DIR"), if kind == "public" { "pub" } else { "sec" });
             if let Some(der) = std::fs::read(&f).ok().and_then(|pem| crate::obs_keys::pem_body(&pem)).filter(|d| d.len() == klen) {
-                cands.push((der, false));
+                if name.starts_with("rsa4096") { pke_cands.push(der) } else { cands.push((der, false)) }
             }
         }
     }
@@ -831,6 +833,25 @@ fn keyid_case<B: Backend>(cx: &mut Ctx, rng: &mut Prng, pairs: &[keys::Pair]) {
             "public" => go!(Public),
             _ => go!(Secret),
         }
+    }
+    // key-sealing keys have ids too (pid / sid of their PASERK text)
+    for kb in pke_cands {
+        let mut inp: Inputs = HashMap::new();
+        inp.insert("keybytes".into(), kb.clone());
+        macro_rules! gop {
+            ($K:ty) => {{
+                match key_from_bytes::<B::V, $K>(&kb) {
+                    Ok(k) => {
+                        let id = k.id();
+                        cx.equal("forward", id.as_bytes(), &ev(fam, &c["id"], &inp), json!({"what": "id bytes", "role": "key-sealing"}));
+                        cx.equal("forward", id.to_string().as_bytes(), &ev(fam, &c["id_text"], &inp), json!({"what": "id text", "role": "key-sealing"}));
+                        cx.equal("forward", k.expose_key().to_string().as_bytes(), &ev(fam, &c["key_text"], &inp), json!({"what": "key text", "role": "key-sealing"}));
+                    }
+                    Err(_) => cx.emit("forward", "equal", false, json!({"real_error": "key-sealing key does not parse"})),
+                }
+            }};
+        }
+        if kind == "public" { gop!(paseto_core::version::PkePublic) } else { gop!(PkeSecret) }
     }
 }
 
